@@ -118,3 +118,9 @@ Theorem fe_unbounded_refuted :
   let '(keys', is) := fe_run false [] [[1; 2]; [2; 3]] in
   keys' = [1; 2] /\ is = [0; 1]%nat /\ slice keys' 1 2 = [2].
 Proof. vm_compute. repeat split; reflexivity. Qed.
+
+Theorem fi_sound : forall l ks s' is, fi_run (fi_init l) ks = (s', is) ->
+  Forall2 (fun k i => nth_error (items s') i = Some k) ks is /\ exists ext, items s' = l ++ ext.
+Proof.
+  intros l ks s' is H. destruct (fi_run_sound ks (fi_init l) s' is (fi_init_inv l) H) as (A & _ & B). split; assumption.
+Qed.
